@@ -70,9 +70,46 @@ modified). Where a check missed a change it was strengthened and the change
 re-run; the last column says which sub-check reports it now and what had to
 be added.
 
+Rounds: `<ID>-1` is the first change written for a property; for `<ID>-2`,
+`<ID>-3` the sub-agent was additionally told, in one sentence each, which areas
+earlier changes had already used (`tools/seed_avoid.json`), so that it would
+pick another mechanism. Summary (computed from `seeded/results.json`):
+@SUMMARY@
+
+What the misses had in common, and what was generalised from them rather than
+patched per case: (a) *operand provenance* — single operations were only run
+on freshly assigned witnesses, never on cells carrying state from an earlier
+operation (cached bounds, constant cells, un-normalised emulated elements,
+computed values exposed as public inputs): C04-1, C04-2, C08-1; (b) *one
+position of a repeated structure* — sampled faults do not reach a given cell
+of a region shape that is laid out thousands of times: engine S4, C07-2;
+(c) *cancelling errors* — batches only ever contained independently corrupted
+members: C15-2, C20-1; (d) *orders that usually coincide* — allocation order
+of columns by phase, numeric versus lexicographic order of names, order of
+instance queries: C01-1, C01-2, C20-2; (e) *sizes at the edge of what is
+admissible* — full instance columns, the tightest domain, buffers filled
+exactly, proofs ending in zero bytes, non-byte-aligned widths: C03-1, C03-2,
+C17-2, C18-1; (f) *redundant or aliased inputs* — equalities declared twice,
+equal commitments behind distinct references, byte arrays congruent modulo the
+field: C02-2, C14-2, C18-2; (g) *fixture-specific shapes* — decoded keys were
+only ever used with the three fixture relations: C16-1.
+
 | id | property | change | needs | caught by |
 |----|----------|--------|-------|-----------|
 """ + "\n".join(srows) + "\n"
+def _summary():
+    rounds={}
+    for sid,r in res.items():
+        rd=sid.split('-')[1]
+        cb=r.get('caught_by','')
+        k='pending' if cb.startswith('pending') or not cb else ('missed at first, caught after strengthening' if 'Missed at first' in cb else 'caught as built')
+        rounds.setdefault(rd,{}).setdefault(k,[]).append(sid.split('-')[0])
+    out=[]
+    for rd in sorted(rounds):
+        parts=[f"{k}: {len(v)} ({', '.join(sorted(v))})" for k,v in sorted(rounds[rd].items())]
+        out.append(f"round {rd} — "+'; '.join(parts)+'.')
+    return '\n'.join(out)
+sec12=sec12.replace('@SUMMARY@',_summary())
 s=open(f'{V}/DESIGN.md').read()
 def put(s, begin, end_marker_regex, new):
     i=s.index(begin)
